@@ -199,11 +199,11 @@ def oracle_views(wl, d):
     return None
 
 
-def oracle_etym(wl, d, ref='cogid'):
+def oracle_etym(wl, d, ref='cogid', wref=None):
     hdr = d[0]
     li, gi = hdr.index('doculect'), hdr.index(ref)
     ids = [k for k in d if k != 0]
-    ety = wl.get_etymdict(ref=ref)
+    ety = wl.get_etymdict(ref=wref or ref)
     for g, slots in ety.items():
         if len(slots) != wl.width:
             return 'etymdict entry with wrong width'
@@ -260,15 +260,15 @@ def oracle_etym_multi(rng, d, drv=None):
     return None
 
 
-def oracle_dst(wl, d, ref='cogid'):
+def oracle_dst(wl, d, ref='cogid', wref=None):
     hdr = d[0]
     ci, li, gi = hdr.index('concept'), hdr.index('doculect'), hdr.index(ref)
     ids = [k for k in d if k != 0]
     from fractions import Fraction
     for im in (False, True):
-        m = wl.get_distances(ref=ref, ignore_missing=im) if hasattr(wl, 'get_distances') else None
+        m = wl.get_distances(ref=wref or ref, ignore_missing=im) if hasattr(wl, 'get_distances') else None
         from lingpy.basic.ops import wl2dst
-        m2 = wl2dst(wl, ref=ref, ignore_missing=im)
+        m2 = wl2dst(wl, ref=wref or ref, ignore_missing=im)
         if m is not None and [list(r) for r in m] != [list(r) for r in m2]:
             return 'get_distances differs from wl2dst'
         for i, a in enumerate(wl.cols):
@@ -296,11 +296,11 @@ def oracle_dst(wl, d, ref='cogid'):
     return None
 
 
-def oracle_paps(wl, d, ref='cogid', missing=-1):
+def oracle_paps(wl, d, ref='cogid', missing=-1, wref=None):
     hdr = d[0]
     ci, li, gi = hdr.index('concept'), hdr.index('doculect'), hdr.index(ref)
     ids = [k for k in d if k != 0]
-    paps = wl.get_paps(ref=ref, missing=missing)
+    paps = wl.get_paps(ref=wref or ref, missing=missing)
     sets = {}
     for k in ids:
         sets.setdefault(d[k][gi], []).append(k)
@@ -453,6 +453,46 @@ def run_views(chk, which):
                     e = oracle_dst(wl, d) or oracle_paps(wl, d, missing=rng.choice([-1, 0])) or oracle_paps_modified(rng, d, missing=rng.choice([-1, 0]))
             except Exception as ex:  # noqa
                 e = 'accessor raised %s: %s' % (type(ex).__name__, str(ex)[:120])
+            if not e and rng.random() < 0.4:
+                # a history on one object: the views are read (column named in one of its spellings), cognate ids are then written
+                # (cell assignment or add_entries(override=True)), and the views are read again by the same spelling - they describe
+                # the rows as they are now
+                try:
+                    spell = rng.choice(['COGID', 'cogid', 'COGID', 'cogid'] + [a for a, t in wl._alias.items() if t == 'cogid'])
+                    gi = d[0].index('cogid')
+                    ids_ = [k for k in d if k != 0]
+                    if which == 'C12':
+                        wl.get_etymdict(ref=spell)
+                    else:
+                        wl.get_distances(ref=spell) if hasattr(wl, 'get_distances') else None
+                        wl.get_paps(ref=spell)
+                    newv = {}
+                    top = max([x for x in (d[k][gi] for k in ids_) if isinstance(x, int)] + [0])
+                    for k in rng.sample(ids_, rng.randrange(1, max(2, len(ids_) // 2 + 1))):
+                        # join another set of the same concept, or found a new one
+                        same = [d[j][gi] for j in ids_ if d[j][d[0].index('concept')] == d[k][d[0].index('concept')] and d[j][gi] != d[k][gi]]
+                        top += 1
+                        newv[k] = rng.choice(same) if same and rng.random() < 0.6 else top
+                    how = rng.choice(['setitem', 'add_entries'])
+                    if how == 'setitem':
+                        for k, v in newv.items():
+                            wl[k, rng.choice(['cogid', spell])] = v
+                    else:
+                        full = {k: newv.get(k, d[k][gi]) for k in ids_}
+                        wl.add_entries('cogid', full, lambda x: x, override=True)
+                    for k, v in newv.items():
+                        d[k] = list(d[k])
+                        d[k][gi] = v
+                    chk.hist['history: views read as %s, cognate ids written (%s), views read again' % ('canonical name' if spell == 'cogid' else 'alias / upper case', how)] += 1
+                    if which == 'C12':
+                        e = oracle_etym(wl, d, wref=spell) or oracle_etym(wl, d) or oracle_views(wl, d)
+                    else:
+                        e = (oracle_dst(wl, d, wref=spell) or oracle_paps(wl, d, missing=rng.choice([-1, 0]), wref=spell)
+                             or oracle_dst(wl, d) or oracle_paps(wl, d))
+                    if e:
+                        e = 'after the views were read by %r and cognate ids were written (%s %r): %s' % (spell, how, newv, e)
+                except Exception as ex:  # noqa
+                    e = 'history (read, write cognate ids, read) raised %s: %s' % (type(ex).__name__, str(ex)[:120])
             if e:
                 fails.append((d, e))
                 continue
